@@ -711,6 +711,31 @@ func init() {
 		}
 	}
 
+	// text/template: construction only (package initialisers build templates); executing one is unsupported
+	type opaqueTemplate struct{}
+	tpl := func(fr *frame, args []value) value { return wrapNative(&opaqueTemplate{}) }
+	self := func(fr *frame, args []value) value { return args[0] }
+	externals["text/template.New"] = tpl
+	externals["(*text/template.Template).New"] = tpl
+	externals["(*text/template.Template).Funcs"] = self
+	externals["(*text/template.Template).Option"] = self
+	externals["(*text/template.Template).Delims"] = self
+	externals["(*text/template.Template).Parse"] = func(fr *frame, args []value) value { return tuple{args[0], nilError()} }
+	externals["text/template.Must"] = self
+
+	// unique.Make[T]: canonical handle per (concrete) value; Handle.Value is interpreted
+	uniq := map[string]*value{}
+	externals["unique.Make"] = func(fr *frame, args []value) value {
+		key := fmt.Sprintf("%s|%#v", fr.fn.String(), args[0])
+		p := uniq[key]
+		if p == nil {
+			v := load(fr.fn.Signature.Params().At(0).Type(), &args[0])
+			p = &v
+			uniq[key] = p
+		}
+		return structure{p}
+	}
+
 	// regexp through the host (concrete arguments only)
 	externals["regexp.MustCompile"] = func(fr *frame, args []value) value {
 		re, err := regexp.Compile(cstr(args[0]))
